@@ -543,15 +543,21 @@ fn noop_waker() -> Waker {
     unsafe { Waker::from_raw(RawWaker::new(std::ptr::null(), &VTABLE)) }
 }
 
-fn thread_body(t: usize, mine: Vec<(usize, Value)>) {
+fn thread_body(t: usize, mine: Vec<(usize, Value)>, race: bool) {
     let home = m(|mo| mo.collectors[0].clone());
     let _home_guard = dispatch::set_default(&home);
     for (gi, s) in mine {
-        detsim::block_until("turn", None, || TURN.load(Ordering::SeqCst) == gi);
+        if race {
+            detsim::op_boundary("op");
+        } else {
+            detsim::block_until("turn", None, || TURN.load(Ordering::SeqCst) == gi);
+        }
         ev(format!("op {gi} t{t} {}", s["op"].as_str().unwrap_or("")));
         exec(&s);
-        TURN.store(gi + 1, Ordering::SeqCst);
-        detsim::progress();
+        if !race {
+            TURN.store(gi + 1, Ordering::SeqCst);
+            detsim::progress();
+        }
     }
     // thread end: drop remaining guards (most recent first), restore defaults
     for g in (0..NGUARDS).rev() {
@@ -608,6 +614,34 @@ fn gen_body(rng: &mut Rng, depth: u32, in_task: bool) -> Vec<Value> {
     v
 }
 
+/// Race shape: confine a step (and its nested bodies) to thread `t`'s own slots and task, and to a shared pair of
+/// callsites, so that threads only meet inside tracing (first hits of the same callsite), never in the harness.
+fn confine(v: &mut Value, t: u64, site_base: u64) {
+    if let Some(o) = v.as_object_mut() {
+        for key in ["slot", "b"] {
+            if let Some(x) = o.get(key).and_then(|x| x.as_u64()) {
+                o.insert(key.into(), json!(t * 4 + x % 4));
+            }
+        }
+        if let Some(x) = o.get("parent").and_then(|x| x.as_i64()) {
+            if x >= 0 {
+                o.insert("parent".into(), json!(t as i64 * 4 + x % 4));
+            }
+        }
+        if o.contains_key("task") {
+            o.insert("task".into(), json!(t));
+        }
+        if let Some(x) = o.get("site").and_then(|x| x.as_u64()) {
+            o.insert("site".into(), json!((site_base + x % 2) % 20));
+        }
+        if let Some(b) = o.get_mut("body").and_then(|b| b.as_array_mut()) {
+            for e in b.iter_mut() {
+                confine(e, t, site_base);
+            }
+        }
+    }
+}
+
 impl Engine for SpanEngine {
     fn name(&self) -> &'static str {
         "span-sim"
@@ -616,7 +650,7 @@ impl Engine for SpanEngine {
         &["C03"]
     }
     fn rule(&self, _p: &str) -> String {
-        "program over handle slots {new (contextual/explicit/root parent), clone, drop, entered/exit/guard drop in any order, nested in_scope/enter scopes incl. panics, record, follows_from, Span::current, or_current, switch the thread's default to the other collector or none, spawn an instrumented task (tracing Instrument, in_current_span, with_collector of the other collector or of the no-op collector, tracing-futures) whose body runs such ops with yield points, poll it on any thread, cancel it, take it apart again with into_inner} executed as a seeded total order on 1-3 threads, under collectors that keep ids on clone_span or (a third of the runs) hand out a fresh id per handle; non-trivial = at least one task polled on a thread other than the one that spawned it or cancelled mid-way, and at least one operation executed under a default different from the span's own collector; distinct = distinct plan digest".into()
+        "program over handle slots {new (contextual/explicit/root parent), clone, drop, entered/exit/guard drop in any order, nested in_scope/enter scopes incl. panics, record, follows_from, Span::current, or_current, switch the thread's default to the other collector or none, spawn an instrumented task (tracing Instrument, in_current_span, with_collector of the other collector or of the no-op collector, tracing-futures) whose body runs such ops with yield points, poll it on any thread, cancel it, take it apart again with into_inner} executed as a seeded total order on 1-3 threads (a sixth of the runs instead as seeded schedules at atomic-op granularity: 2-3 threads on disjoint handle slots whose first operations hit one shared pair of callsites, judged per thread), under collectors that keep ids on clone_span or (a third of the runs) hand out a fresh id per handle; non-trivial = at least one task polled on a thread other than the one that spawned it or cancelled mid-way, and at least one operation executed under a default different from the span's own collector; distinct = distinct plan digest".into()
     }
     fn components(&self) -> Value {
         json!({"real": ["tracing::Span, Entered/EnteredSpan guards, in_scope", "tracing::instrument::{Instrumented, WithDispatch}", "tracing_futures::Instrumented", "tracing-core dispatch"],
@@ -624,9 +658,18 @@ impl Engine for SpanEngine {
     }
     fn generate(&self, g: &GenCtx) -> Value {
         let mut rng = Rng::new(g.seed);
-        let nthreads = rng.range(1, 3);
-        let nsteps = rng.range(6, if g.tier == "thorough" { 60 } else { 40 });
+        // a sixth of the runs are seeded schedules (atomic-op granularity) over a shared pair of callsites
+        let race = rng.chance(1, 6);
+        let nthreads = if race { rng.range(2, 3) } else { rng.range(1, 3) };
+        let nsteps = if race { rng.range(2, 10) } else { rng.range(6, if g.tier == "thorough" { 60 } else { 40 }) };
         let mut steps = vec![];
+        // (half of the race runs share a TRACE-level callsite, which the home collector usually rejects)
+        let site_base = if rng.chance(1, 2) { 16 + rng.below(3) } else { rng.below(20) };
+        if race {
+            for t in 0..nthreads {
+                steps.push(json!({"t": t, "op": "new", "slot": rng.below(4), "site": 0, "parent": *rng.pick(&[-1i64, -1, -2])}));
+            }
+        }
         for _ in 0..nsteps {
             let t = rng.below(nthreads);
             let slot = rng.below(NSLOTS as u64);
@@ -652,8 +695,14 @@ impl Engine for SpanEngine {
             };
             steps.push(st);
         }
-        let sched = Sched::op_order(rng.next_u64());
-        json!({"engine": "span", "prop": g.prop, "mode": g.mode, "cfg": {"threads": nthreads, "thr0": *rng.pick(&[4u64, 4, 3, 5]), "handle_ids": rng.chance(1, 3)}, "steps": steps, "sched": serde_json::to_value(&sched).unwrap()})
+        if race {
+            for st in steps.iter_mut() {
+                let t = st["t"].as_u64().unwrap_or(0);
+                confine(st, t, site_base);
+            }
+        }
+        let sched = if race { Sched::swarm(&mut rng, 400) } else { Sched::op_order(rng.next_u64()) };
+        json!({"engine": "span", "prop": g.prop, "mode": g.mode, "cfg": {"threads": nthreads, "thr0": *rng.pick(&[4u64, 4, 3, 5]), "handle_ids": rng.chance(1, 3), "race": race}, "steps": steps, "sched": serde_json::to_value(&sched).unwrap()})
     }
 
     fn execute(&self, plan: &Value) -> RunResult {
@@ -661,6 +710,7 @@ impl Engine for SpanEngine {
         let nthreads = plan["cfg"]["threads"].as_u64().unwrap_or(1).max(1) as usize;
         let thr0 = plan["cfg"]["thr0"].as_u64().unwrap_or(4) as u8;
         let hid = plan["cfg"]["handle_ids"].as_bool().unwrap_or(false);
+        let race = plan["cfg"]["race"].as_bool().unwrap_or(false) && sched.sync;
         let steps: Vec<Value> = plan["steps"].as_array().cloned().unwrap_or_default();
         std::panic::set_hook(Box::new(|_| {}));
         let steps2 = steps.clone();
@@ -685,10 +735,10 @@ impl Engine for SpanEngine {
             let mut tids = vec![];
             for t in 1..nthreads {
                 let mine: Vec<(usize, Value)> = indexed.iter().filter(|x| x.1 == t).map(|x| (x.0, x.2.clone())).collect();
-                tids.push(detsim::spawn(&format!("t{t}"), move || thread_body(t, mine)));
+                tids.push(detsim::spawn(&format!("t{t}"), move || thread_body(t, mine, race)));
             }
             let mine: Vec<(usize, Value)> = indexed.iter().filter(|x| x.1 == 0).map(|x| (x.0, x.2.clone())).collect();
-            thread_body(0, mine);
+            thread_body(0, mine, race);
             for id in tids {
                 detsim::join(id);
             }
@@ -706,7 +756,7 @@ impl Engine for SpanEngine {
             let log = rec::take_log();
             let mo = MODEL.lock().unwrap().take();
             if let Some(mo) = mo {
-                oracle(&steps, &mo, &log, hid);
+                oracle(&steps, &mo, &log, hid, race);
             }
         };
         simulate(&plan.to_string(), &sched, None, body, finish)
@@ -728,7 +778,7 @@ trait NotSendFallback {
 impl<T> NotSendFallback for SendProbe<T> {}
 
 /// Compare the collectors' actual call sequence with the expected one and run the A3 automaton.
-fn oracle(steps: &[Value], mo: &Model, log: &[Rec], per_handle: bool) {
+fn oracle(steps: &[Value], mo: &Model, log: &[Rec], per_handle: bool, race: bool) {
     // "every enter matched by one exit on the same thread" rests on the guards not being sendable
     if SendProbe::<tracing::span::Entered<'static>>(std::marker::PhantomData).is_send() || SendProbe::<tracing::span::EnteredSpan>(std::marker::PhantomData).is_send() {
         violation("guard-is-send", "span::Entered / span::EnteredSpan implement Send: a guard can be dropped (and its span exited) on another thread than the one that entered it");
@@ -868,6 +918,28 @@ fn oracle(steps: &[Value], mo: &Model, log: &[Rec], per_handle: bool) {
             violation("unbalanced-enter", format!("collector {k}: span uid {uid} has {n} unmatched enters on thread {t}"));
             return;
         }
+    }
+    if race {
+        // under a seeded schedule the threads' calls interleave freely: the exact sequence is judged per thread
+        let nthreads = actual.iter().chain(mo.expect.iter()).map(|e| e.t).max().map_or(0, |t| t + 1);
+        for t in 0..nthreads {
+            let a: Vec<&Exp> = actual.iter().filter(|e| e.t == t).collect();
+            let e: Vec<&Exp> = mo.expect.iter().filter(|e| e.t == t).collect();
+            let n = a.len().min(e.len());
+            for i in 0..n {
+                if a[i] != e[i] {
+                    violation("protocol-mismatch", format!("thread {t} call #{i}: expected {:?} but the collector saw {:?}", e[i], a[i]));
+                    return;
+                }
+            }
+            if a.len() != e.len() {
+                let extra = if a.len() > n { format!("unexpected extra call {:?}", a[n]) } else { format!("missing call {:?}", e[n]) };
+                violation("protocol-mismatch", format!("thread {t}: {} calls seen, {} expected: {extra}", a.len(), e.len()));
+                return;
+            }
+        }
+        nontrivial();
+        return;
     }
     // exact sequence
     let n = actual.len().min(mo.expect.len());
